@@ -9,7 +9,9 @@ import (
 	"os"
 	"os/exec"
 	"path/filepath"
+	"regexp"
 	"runtime"
+	"runtime/pprof"
 	"sort"
 	"strconv"
 	"strings"
@@ -107,6 +109,11 @@ func runWorker(c *Check, tier string, shard, n int, seed int64, out, journal, sk
 		dl = time.Unix(deadline, 0)
 	}
 	w := newWorker(c.ID, tier, shard, n, seed, journal, skip, dl)
+	if pf := os.Getenv("VERIF_PROFILE"); pf != "" {
+		f, _ := os.Create(pf)
+		pprof.StartCPUProfile(f) //nolint:errcheck
+		defer pprof.StopCPUProfile()
+	}
 	c.Run(w)
 	w.Res.Done = true
 	w.writeJournal("")
@@ -116,11 +123,14 @@ func runWorker(c *Check, tier string, shard, n int, seed int64, out, journal, sk
 	}
 }
 
+var evyFrameRe = regexp.MustCompile(`evylang\.dev/evy/(?:learn/)?pkg/(\S+?)\((?:0x[0-9a-f]+|\.\.\.|\)|\{)`)
+
 type shardState struct {
 	res      *Result
 	skip     map[string]string
 	restarts int
 	err      string
+	elapsed  time.Duration
 }
 
 func supervise(c *Check, tier string, seed int64) int {
@@ -163,6 +173,8 @@ func supervise(c *Check, tier string, seed int64) int {
 		go func(i int) {
 			defer wg.Done()
 			st := states[i]
+			t0 := time.Now()
+			defer func() { st.elapsed = time.Since(t0) }()
 			for {
 				out := filepath.Join(tmp, fmt.Sprintf("res-%d.json", i))
 				jr := filepath.Join(tmp, fmt.Sprintf("journal-%d", i))
@@ -222,6 +234,16 @@ func supervise(c *Check, tier string, seed int64) int {
 				}
 				if strings.Contains(tail, "stack overflow") {
 					kind = "process-death:stack-overflow"
+					// the innermost frame of the code under test tells recursion in user functions from e.g. printing a cyclic value
+					set := map[string]bool{}
+					for i, m := range evyFrameRe.FindAllStringSubmatch(string(lb), 40) {
+						if i < 40 {
+							set[m[1]] = true
+						}
+					}
+					if len(set) > 0 {
+						kind += ":" + strings.Join(SortedKeys(set), "+")
+					}
 				} else if strings.Contains(tail, "MEMORY-FENCE") || strings.Contains(tail, "out of memory") || strings.Contains(tail, "cannot allocate memory") {
 					kind = "process-death:memory"
 				}
@@ -321,6 +343,11 @@ func supervise(c *Check, tier string, seed int64) int {
 	}
 	wall := time.Since(start).Seconds()
 	writeEvidence(c, tier, seed, merged, wall, nviol, knownHit, broken)
+	if os.Getenv("VERIF_VERBOSE") != "" {
+		for i, st := range states {
+			fmt.Printf("shard %d: %.1fs restarts=%d\n", i, st.elapsed.Seconds(), st.restarts)
+		}
+	}
 	for _, b := range broken {
 		fmt.Printf("BROKEN-CHECK %s: %s\n", c.ID, trunc(b, 2000))
 	}
@@ -399,8 +426,28 @@ func doReplay(c *Check, path string) int {
 		fmt.Fprintln(os.Stderr, "check has no replay function")
 		return 2
 	}
-	if raw.Sub == "process" {
-		fmt.Println("this replay is a process death/hang; run the input through the check's sub-runner manually:", string(raw.Input))
+	if raw.Sub == "process" && os.Getenv("VERIF_REPLAY_CHILD") == "" {
+		// the recorded case killed or hung its worker: replay it in a child process under the same fences
+		exe, _ := os.Executable()
+		cmd := exec.Command(exe, c.ID, "-replay", path)
+		cmd.Env = append(os.Environ(), "VERIF_REPLAY_CHILD=1")
+		out, _ := cmd.CombinedOutput()
+		done := make(chan struct{})
+		_ = done
+		code := cmd.ProcessState.ExitCode()
+		if code == 0 {
+			fmt.Printf("replay: property %s holds on this input (the process survived)\n", c.ID)
+			return 0
+		}
+		if code != 1 {
+			fmt.Printf("VIOLATION property=%s replay=%s\n  the process running this input died (exit %d): %s\n", c.ID, path, code, trunc(string(out), 600))
+			return 1
+		}
+		fmt.Print(string(out))
+		return 1
+	}
+	if os.Getenv("VERIF_REPLAY_CHILD") != "" {
+		fence()
 	}
 	v := c.Replay(raw.Sub, raw.Input)
 	if v == nil {
